@@ -517,6 +517,11 @@ impl Actor {
         self.socket.verif_set_next_tid(tid);
     }
 
+    /// Make the socket's in-flight table exactly full (capacity = length).
+    pub fn verif_shrink_inflight_table(&mut self) {
+        self.socket.verif_shrink_inflight_table();
+    }
+
     /// Plain-data description of everything this actor holds.
     pub fn verif_snapshot(&self) -> crate::verif::ActorSnapshot {
         crate::verif::ActorSnapshot {
